@@ -55,7 +55,40 @@ pub fn words(n: usize) -> Vec<(String, Vec<usize>)> {
 
 pub fn run(tier: Tier, _replay: Option<Value>) -> ! {
     let mut rep = Report::new("C05", tier, "exploration");
-    let ws = words(tier.pick(2, 3));
+    let mut ws = words(tier.pick(2, 3));
+    // one double-quoted piece composed of several expansions: quoting inside the word of a default/alternate
+    // value, arrays, substitutions and escapes must each keep their own rule inside the same pair of quotes.
+    // (idx = PIECES.len() + position in INNER marks these words for the tags)
+    const INNER: &[(&str, &str)] = &[
+        ("lit", "x"),
+        ("var", "$v"),
+        ("default-dq", "${u:-\"d e\"}"),
+        ("default-sq", "${u:-'q r'}"),
+        ("default-esc", "${u:-\\q}"),
+        ("default-tilde", "${u:-~}"),
+        ("alt-dq", "${v:+\"a b\"}"),
+        ("alt-sq", "${v:+'s t'}"),
+        ("cmdsub", "$(echo x  y)"),
+        ("at", "$@"),
+        ("arr-at", "${a[@]}"),
+        ("esc-dollar", "\\$"),
+        ("default-var", "${u:-$v}"),
+    ];
+    let inner_n = tier.pick(2, 3);
+    for len in 1..=inner_n {
+        for idx in crate::engine::enumerate::product(&vec![INNER.len(); len]) {
+            // at least one default/alternate piece (the others are covered by the plain pieces)
+            if !idx.iter().any(|i| INNER[*i].0.starts_with("default") || INNER[*i].0.starts_with("alt")) {
+                continue;
+            }
+            let inner: String = idx.iter().map(|i| INNER[*i].1).collect();
+            ws.push((format!("\"{inner}\""), idx.iter().map(|i| PIECES.len() + i).collect()));
+            if len <= 2 {
+                ws.push((format!("$v\"{inner}\"lit"), idx.iter().map(|i| PIECES.len() + i).collect()));
+            }
+        }
+    }
+    let piece_name = |i: usize| -> String { if i < PIECES.len() { PIECES[i].0.to_string() } else { format!("in-dq:{}", INNER[i - PIECES.len()].0) } };
     let trees: Vec<Vec<(&str, &str)>> = vec![vec![("a", ""), ("ab", ""), ("b", ""), (".h", ""), ("x y", ""), ("lit", "")], vec![]];
     let mut body = String::new();
     for (k, (w, _)) in ws.iter().enumerate() {
@@ -149,7 +182,7 @@ pub fn run(tier: Tier, _replay: Option<Value>) -> ! {
                 rep.nontrivial.insert(format!("{w}|{}", ci));
             }
             if &got != want {
-                let mut tags: Vec<String> = idx.iter().map(|i| format!("piece:{}", PIECES[*i].0)).collect();
+                let mut tags: Vec<String> = idx.iter().map(|i| format!("piece:{}", piece_name(*i))).collect();
                 tags.sort();
                 tags.dedup();
                 tags.push(format!("ifs:{}", IFSS[c.i].0));
